@@ -350,6 +350,11 @@ def check(ctx: Ctx) -> None:
     ctx.guard("R20.2", CM, constructor, ctx)
     ctx.guard("R20.3", CM, hooks, ctx)
     ctx.guard("R20.4", CM, dunders, ctx)
+    # "additionally carries the raw encoded value": every kind of parsed value of the two end-to-end documents (calibrated by
+    # default / context calibrators, enumerations, booleans, strings, binaries, times) has the encoded value as raw_value
+    from .c01 import end_to_end, end_to_end_second
+    ctx.guard("R20.e", "xtce/definitions.py", end_to_end, ctx, "R20.e")
+    ctx.guard("R20.e", "xtce/definitions.py", end_to_end_second, ctx, "R20.e")
 
 
 def mutants(prog):
@@ -382,7 +387,7 @@ SPEC = PropSpec(
     pid="C20",
     title="Parsed values are drop-in built-ins with a raw value and survive copying",
     check=check,
-    floors={"R20.1": 5, "R20.2": 6, "R20.3": 9, "R20.4": 6},
+    floors={"R20.1": 5, "R20.2": 6, "R20.3": 9, "R20.4": 6, "R20.e": 20},
     explanation=("Class-shape rules over the value classes, CCSDSPacket and RawPacketData: base table (mixin first, one "
                  "matching built-in), decision table of the constructor hook by abstract interpretation for every "
                  "class x falsy/ordinary value x raw omitted/falsy/ordinary (raw chosen by `is None`, value forwarded), "
